@@ -20,12 +20,11 @@ def heldSum (rm : RM) (r : Nat) : Int := (rm.resv.map (fun p => amt p.2 r)).fold
 /-- A request dictionary: distinct keys (a Python `dict`). -/
 def NodupKeys (q : Req) : Prop := (q.map (·.1)).Nodup
 
-/-- Well-formed operations: requests are dictionaries; `merge` is given two distinct reservations
-(the property's wording; `a.merge(a)` empties `a` without returning anything to the pools). -/
+/-- Well-formed operations: requests are dictionaries (distinct keys).  `merge` needs no
+hypothesis: merging a reservation into itself is a no-op (finding F11, repaired). -/
 def WFOp : RMOp → Prop
   | .reserve req => NodupKeys req
   | .release _ (some rel) => NodupKeys rel
-  | .merge a b => a ≠ b
   | .register req _ => NodupKeys req
   | _ => True
 
@@ -315,7 +314,9 @@ theorem inv_release {rm : RM} (hi : Inv rm) (id : Nat) (part : Option Req)
         rw [← hq1]; exact hhkn q hq
       · rw [RM.release_part_err rm id h rel hh hv]; exact hi
 
-theorem inv_merge {rm : RM} (hi : Inv rm) (a b : Nat) (hne : a ≠ b) : Inv (rm.merge a b).1 := by
+theorem inv_merge {rm : RM} (hi : Inv rm) (a b : Nat) : Inv (rm.merge a b).1 := by
+  by_cases hne : a = b
+  · subst hne; unfold RM.merge; cases rm.held a <;> simp [hi]
   unfold RM.merge
   cases ha : rm.held a with
   | none => exact hi
@@ -323,7 +324,9 @@ theorem inv_merge {rm : RM} (hi : Inv rm) (a b : Nat) (hne : a ≠ b) : Inv (rm.
     cases hb : rm.held b with
     | none => exact hi
     | some hdb =>
-      simp only
+      have hab : (a == b) = false := by simpa using hne
+      simp only [hab, Bool.false_eq_true, if_false]
+      have hne : a ≠ b := hne
       obtain ⟨hak, hap, hakn⟩ := hi.rinv.of_held ha
       obtain ⟨hbk, hbp, hbkn⟩ := hi.rinv.of_held hb
       have hR1 : RInv (rm.setHeld a (RM.mergeHeld hda hdb)) := by
@@ -353,7 +356,7 @@ theorem inv_apply (rm : RM) (op : RMOp) (h : Inv rm) (hw : WFOp op) : Inv (rm.ap
   | release id part =>
     refine inv_release h id part ?_
     intro rel hp; subst hp; exact hw
-  | merge a b => exact inv_merge h a b hw
+  | merge a b => exact inv_merge h a b
   | register req cb =>
     exact ⟨h.poolKeys, h.resvIds, h.heldKeys, h.heldPos, h.heldKnown, h.usageEq, h.capNonneg⟩
 
@@ -463,7 +466,8 @@ theorem usage_le_cap_unless_reduced (rm : RM) (op : RMOp) (r : Nat) (hi : Inv rm
   | register req cb => exact hle
   | merge a b =>
     show (rm.merge a b).1.usage r ≤ (rm.merge a b).1.capacity r
-    unfold RM.merge; split <;> exact hle
+    unfold RM.merge; split <;> try split
+    all_goals exact hle
   | add r' a =>
     show (rm.add r' a).1.usage r ≤ (rm.add r' a).1.capacity r
     unfold RM.add
@@ -584,7 +588,8 @@ theorem release_twice_noop (rm : RM) (id : Nat) (hi : Inv rm) (hh : (rm.held id)
 the sum while the other holds nothing (so the total held is unchanged — `inv_apply`). -/
 theorem merge_usage_unchanged (rm : RM) (a b : Nat) :
     (rm.merge a b).1.pools = rm.pools := by
-  unfold RM.merge; split <;> rfl
+  unfold RM.merge; split <;> try split
+  all_goals rfl
 
 theorem merge_holdings (rm : RM) (a b : Nat) (ha hb : Req) (hi : Inv rm) (hne : a ≠ b)
     (h1 : rm.held a = some ha) (h2 : rm.held b = some hb) :
@@ -592,7 +597,8 @@ theorem merge_holdings (rm : RM) (a b : Nat) (ha hb : Req) (hi : Inv rm) (hne : 
       (rm.merge a b).1.held b = some [] := by
   obtain ⟨hbk, _, _⟩ := hi.rinv.of_held h2
   have heq : (rm.merge a b).1 = (rm.setHeld a (RM.mergeHeld ha hb)).setHeld b [] := by
-    unfold RM.merge; simp only [h1, h2]
+    have hab : (a == b) = false := by simpa using hne
+    unfold RM.merge; simp only [h1, h2, hab, Bool.false_eq_true, if_false]
   rw [heq]
   refine ⟨RM.mergeHeld ha hb, ?_, ?_, ?_⟩
   · rw [RM.held_setHeld_ne _ _ _ _ hne]
